@@ -206,21 +206,38 @@ def job_wrapper_args(tier):
     sq = theory.UF["sqrt"]
 
     # --- unnormalised direction vectors
+    sep_args = []
+    real_sep = vv._separate_dirs_test
+
+    def sep_spy(direction, angles_tol):
+        sep_args.append((rnp.array(direction, dtype=object).copy(), angles_tol))
+        return real_sep(direction, angles_tol)
+
+    vv._separate_dirs_test = sep_spy
+
     def run_dir():
         del recd.calls[:]
+        del sep_args[:]
         sym.assume(B[0] < B[1])
         sym.assume(tol > 0)
         for vec in u:
             sym.assume(vec[0] * vec[0] + vec[1] * vec[1] > 1e-6)
         vv.vario_estimate([list(r) for r in X], list(F), list(B), direction=[list(u[0]), list(u[1])], angles_tol=tol)
-        return recd.calls[-1]
+        return recd.calls[-1] + (list(sep_args),)
 
     for pi, p in enumerate(explore(run_dir, max_paths=40)):
         if p.exc is not None:
             out.append(rec(f"C08/args/direction/path{pi}", "error", detail=f"{p.exc!r} {p.tb}"))
             continue
-        name, a, k = p.out
+        name, a, k, seps = p.out
         field, edges, pos, direction, angles_tol, bandwidth, sep, etc = a[0], a[1], a[2], a[3], a[4], a[5], a[6], a[7]
+        # the separated-directions decision is taken on the normalised directions and the given tolerance
+        if len(seps) != 1:
+            out.append(rec(f"C08/args/direction/path{pi}/separation test called once", "error", detail=str(len(seps))))
+        else:
+            sd, st = seps[0]
+            goals = [lift(sd[d_, e_]) == lift(direction[d_, e_]) for d_ in range(2) for e_ in range(2)] + [lift(st) == tol.e]
+            out.append(prove(f"C08/args/direction/path{pi}/separation test sees the normalised directions", p.conds, z3.And(goals), T, witness_vars=wv, replay=rb))
         for d in range(2):
             nrm = sq(u[d][0].e * u[d][0].e + u[d][1].e * u[d][1].e)
             for e in range(2):
@@ -232,6 +249,8 @@ def job_wrapper_args(tier):
         adm = z3.If(ad <= 1, ad, z3.RealVal(1))
         want = theory.UF["arccos"](adm) >= 2 * tol.e
         out.append(prove(f"C08/args/direction/path{pi}/separate_dirs<=>angle between directions>=2*tol", p.conds, want if sep else z3.Not(want), T, witness_vars=wv, replay=rb))
+
+    vv._separate_dirs_test = real_sep
 
     # --- angles -> direction (2-D: (cos a, sin a))
     def run_ang():
@@ -484,6 +503,18 @@ def replay_args(inputs):
                 bad.append(f"separate_dirs={a[6]} angle={ang} tol={tol}")
             if a[5] != -1.0:
                 bad.append("bandwidth default")
+            # the solver's witness fixes arbitrary arccos values; confirm on a small neighbourhood of direction
+            # pairs (lengths below, at and above 1; several enclosed angles and tolerances)
+            for n1 in (0.4, 1.0, 2.5):
+                for n2 in (0.5, 1.0, 3.0):
+                    for enc in (0.3, 0.7, 1.2):
+                        for tl in (0.2, 0.5):
+                            uu = np.array([[n1, 0.0], [n2 * math.cos(enc), n2 * math.sin(enc)]])
+                            del calls[:]
+                            gs.vario_estimate(X, F, B, direction=uu, angles_tol=tl)
+                            flag = bool(calls[-1][1][6])
+                            if abs(enc - 2 * tl) > 1e-9 and flag != (enc >= 2 * tl):
+                                bad.append(f"separate_dirs={flag} for directions {uu.tolist()} (enclosed angle {enc}, tol {tl})")
         ang = _val(v, "ang", 0.7)
         if B[0] < B[1]:
             gs.vario_estimate(X, F, B, angles=ang, angles_tol=0.3, bandwidth=1.5)
